@@ -10,7 +10,7 @@ import writemodel as wm
 
 PROP = "C12"
 MODEL_TARGETS = ["Corr/WriteShow.vo"]
-THEOREMS = ["C12_order_tables_agree", "C12_order_case_insensitive", "C12_order_symmetric", "C12_header_independent_of_data_options"]
+THEOREMS = ["C12_table_checks", "C12_order_tables_agree", "C12_order_case_insensitive", "C12_upper_facts", "C12_order_symmetric", "C12_reader_order_is_build_item", "C12_write_factors", "C12_header_independent_of_data_options", "C12_header_text_independent", "C12_state_independent_of_presentation", "C12_written_lines", "C12_version_swap_meaning", "C12_swap_on_disk"]
 ASSUMPTIONS = [
     "two numeric formats of equal precision print the same digits (oracle); only formats of equal precision are paired",
     "the reader side of the equality (parse of the written lines) rests on C04/C03 and the correspondence",
